@@ -116,13 +116,21 @@ def repeat_mapping(rep):
         ('e{n}', ref('n'), ref('n'), ('n', 'n')),
         ('e{m,n}', ref('m'), ref('n'), ('m', 'n')),
         ('e{`k+1`}', py('k+1'), py('k+1'), ('k+1', 'k+1')),
+        # zero is a bound like any other: as an upper bound it means "no element", not "no bound"
+        ('e{0}', py('0'), py('0'), ('0', '0')),
+        ('e{0,0}', py('0'), py('0'), ('0', '0')),
+        ('e{,0}', None, py('0'), (None, '0')),
+        ('e{0,}', py('0'), py('None'), ('0', None)),
+        ('e{0,2}', py('0'), py('2'), ('0', '2')),
+        ('e{1}', py('1'), py('1'), ('1', '1')),
     ]
+    lower = lambda v: '0' if v is None else v          # no lower bound and a lower bound of 0 mean the same
     for label, start, stop, (wmin, wmax) in cases:
         tree = N('Postfix', left=e, operator=N('Repeat', open='{', start=start, stop=stop, close='}'))
         try:
             got = create(tree)
             ok = isinstance(got, M.Obj) and got.cls.name == 'List' and got.d.get('expr') is e \
-                and _s(got.d.get('min_len')) == wmin and _s(got.d.get('max_len')) == wmax
+                and lower(_s(got.d.get('min_len'))) == lower(wmin) and _s(got.d.get('max_len')) == wmax
             shown = canon(got)
         except M.MetaRaise as ex:
             ok, shown = False, f'raises {ex}'
@@ -132,7 +140,7 @@ def repeat_mapping(rep):
             rep.add(Finding('MAP-repeat', 'sourcer/translator.py:_create_parsing_expression', label,
                             f'{label} is translated to {shown}, expected List(e, min_len={wmin!r}, max_len={wmax!r})',
                             'sourcer/translator.py:_create_parsing_expression'))
-    rep.floor('repeat spellings mapped', rep.instances.get('repeat spellings mapped', 0), 7)
+    rep.floor('repeat spellings mapped', rep.instances.get('repeat spellings mapped', 0), 13)
 
 
 def _s(x):
